@@ -79,6 +79,8 @@ ImageRules == {
   R("img.image", "size", "float", "coerce"),
   R("img.image", "volume_id", "empty", "reject"), R("img.image", "volume_id", "int", "reject"),
   R("img.image", "type", "unknown", "reject"), R("img.image", "type", "upper", "reject"), R("img.image", "type", "none", "reject"),
+  R("img.image", "format", "unknown_as_live", "reject"), R("img.image", "format", "unknown_as_ec2", "reject"), R("img.image", "format", "unknown_as_rescue", "reject"),
+  R("img.image", "format", "unknown_as_kvm", "reject"), R("img.image", "format", "unknown_as_p2v", "reject"),
   R("img.image", "format", "unknown", "reject"), R("img.image", "format", "upper", "reject"), R("img.image", "format", "none", "reject"),
   R("img.image", "arch", "empty", "reject"), R("img.image", "arch", "none", "reject"),
   R("img.image", "checksums", "emptydict", "reject"), R("img.image", "checksums", "none", "reject"), R("img.image", "checksums", "list", "reject"),
